@@ -369,6 +369,9 @@ func (u *ModelUpdates) addMutateOperation(dbModel model.DatabaseModel, table, uu
 			return err
 		}
 
+		if overflows(current, mutation.Mutator, nativeValue) {
+			return ovsdb.NewRangeError(fmt.Sprintf("result of %q on column %q is out of range", mutation.Mutator, mutation.Column))
+		}
 		newValue, diff := mutate(current, mutation.Mutator, nativeValue)
 		if !isFinite(newValue) {
 			// RFC 7047 5.1: the result of an arithmetic mutation on a real
